@@ -325,6 +325,8 @@ class Effects(object):
         for node in ast.walk(fi.node):
             if isinstance(node, ast.Return) and node.value is not None:
                 out |= ff.prov(node.value)
+            elif isinstance(node, (ast.Yield, ast.YieldFrom)) and node.value is not None:
+                out |= ff.prov(node.value)  # a generator hands out what it yields
         self._returns[k] = out or {"fresh"}
         return self._returns[k]
 
@@ -483,19 +485,54 @@ def effective_path(site: Site) -> str:
 
 def classify_input_write(site: Site) -> Optional[str]:
     """Name of the allowed idiom a write to an input belongs to, or None."""
-    fn = site.fi.qualname
+    from .roles import citation_functions
+
+    deref_f, ref_f = citation_functions(site.fi.module.program)
     seg = site.text()
     root, path = site.path()
     pstr = effective_path(site)
-    if fn.endswith("AssemblyManager._deref_citations") and site.kind == "store" and ".qualifiers" in pstr and "citation" in pstr and pstr.rstrip().endswith("]"):
+    is_deref, is_ref = site.fi is deref_f, site.fi is ref_f
+    slot = site.kind == "store" and pstr.rstrip().endswith("]") and ((".qualifiers" in pstr and "citation" in pstr) or _is_citation_list(site, root))
+    if is_deref and slot:
         return "A1 citation slot store (dereference)"
-    if fn.endswith("AssemblyManager._ref_citations") and site.kind == "store" and ".qualifiers" in pstr and "citation" in pstr and pstr.rstrip().endswith("]"):
+    if is_ref and slot:
         return "A2 citation slot store (re-reference)"
-    if fn.endswith("AssemblyManager._ref_citations") and site.kind == "call:setdefault" and ".annotations" in pstr and "'references'" in seg.replace('"', "'"):
+    if is_ref and site.kind == "call:setdefault" and ".annotations" in pstr and "'references'" in seg.replace('"', "'"):
         return "A3 annotations.setdefault('references', []) (explicitly tolerated: absent == empty)"
-    if fn.endswith("AssemblyManager._ref_citations") and site.kind == "call:append" and root == "references":
+    if is_ref and site.kind == "call:append" and root == "references":
         return "A4 references.append(ref) guarded by 'ref not in references' (never fires for an input: its citations came from its own list)"
     return None
+
+
+def _is_citation_list(site: Site, root: Optional[str]) -> bool:
+    """the local `root` is bound (assignment or for target) to a feature's
+    citation list, possibly handed out by a helper generator of the layer"""
+    from .roles import touches_citation
+
+    if not root:
+        return False
+    fi = site.fi
+    p = fi.module.program
+    for n in ast.walk(fi.node):
+        src = None
+        if isinstance(n, ast.Assign) and any(isinstance(t, ast.Name) and t.id == root for t in n.targets):
+            src = n.value
+        elif isinstance(n, (ast.For, ast.comprehension)) and any(isinstance(x, ast.Name) and x.id == root for x in ast.walk(n.target)):
+            src = n.iter
+        if src is None:
+            continue
+        if any(isinstance(c, ast.Constant) and c.value == "citation" for c in ast.walk(src)):
+            return True
+        for c in ast.walk(src):
+            if isinstance(c, ast.Call) and isinstance(c.func, (ast.Name, ast.Attribute)):
+                g = None
+                if isinstance(c.func, ast.Name):
+                    g = p.resolve_expr(fi.module, c.func)
+                elif isinstance(c.func.value, ast.Name) and c.func.value.id in ("self", "cls") and fi.owner is not None:
+                    _, g = p.class_attr_def(fi.owner, c.func.attr)
+                if isinstance(g, FuncInfo) and touches_citation(p, g, 1):
+                    return True
+    return False
 
 
 def assembly_write_set(ctx, rule_prefix: str):
@@ -560,7 +597,7 @@ def feature_writers(ctx, rule: str, eff: Effects, sites: List[Site]):
             ok = s.fi.qualname == "moclo.core._utils.add_as_source" and s.kind == "call:append"
             r.ob(rule + ".feature-list-writer", "%s@%s" % (s.fi.qualname, _norm_stmt(s.text())), ok,
                  "the feature list of a record on the assembly path is modified outside add_as_source's append: `%s`" % s.text(), s.where)
-        elif ".qualifiers" in pstr:
+        elif ".qualifiers" in pstr or (s.kind == "store" and _is_citation_list(s, root)):
             seen.add(key)
             ok = classify_input_write(s) in ("A1 citation slot store (dereference)", "A2 citation slot store (re-reference)")
             r.ob(rule + ".qualifier-writer", "%s@%s" % (s.fi.qualname, _norm_stmt(s.text())), ok,
@@ -861,8 +898,8 @@ def raise_inventory(ctx, rule: str):
                 if isinstance(raw, FuncInfo) and id(raw) not in seen:
                     seen.add(id(raw))
                     match_funcs.append(raw)
-    if len(match_funcs) < 2:
-        raise AnalysisError("expected at least two _match implementations on the MRO of the kit classes, found %d" % len(match_funcs))
+    if len(match_funcs) < 1:
+        raise AnalysisError("anchor vanished: no _match implementation on the MRO of the kit classes")
     inv_seq = p.get_class("moclo.errors.InvalidSequence")
     for fi in match_funcs:
         for node in ast.walk(fi.node):
@@ -1011,7 +1048,7 @@ def match_slot_rule(ctx, rule: str):
         known = [k for k in kinds if k in ("property_cached.cached_property", "builtins.property", "functools.cached_property")]
         r.ob(rule + ".descriptor-kind", raw.qualname + "#known", bool(known) and len(kinds) == 1,
              "_match is decorated with %s; only property_cached.cached_property / property are known to keep one value per (descriptor, instance)" % kinds, raw.where())
-    r.floor(rule + ".descriptor-kind", 6)
+    r.floor(rule + ".descriptor-kind", 2)  # the base class's _match; overrides may legitimately come and go
 
 
 BUILTIN_TYPES = {"list": list, "dict": dict, "str": str, "tuple": tuple, "set": set}
@@ -1092,3 +1129,92 @@ def builtin_method_lint(ctx, rule: str, scope=("moclo.core", "moclo.regex", "moc
                              "%s:%d" % (m.relpath, node.lineno))
     r.analysed["builtin_method_uses_checked"] = n_checked
     r.floor(rule, 8)
+
+
+# ---------------------------------------------------------------------------
+# circular records keep no derived state
+
+
+_STATE_EXEMPT = {"__init__", "__new__", "__setattr__", "__setstate__", "__copy__", "__deepcopy__", "__reduce__"}
+
+
+def record_instance_state_rule(ctx, rule: str, entries):
+    """A CircularRecord is a mutable SeqRecord (seq, features, annotations and
+    letter annotations can be reassigned or edited in place), so whatever one
+    of its query methods derives from them must be recomputed on every call:
+    none of the methods reachable from ``entries`` (through self-calls and
+    property reads of the class) stores anything on the receiver.  Explicit
+    mutators (the constructor, property setters) are exempt."""
+    p = ctx.program
+    r = ctx.report
+    ci = p.get_class("moclo.record.CircularRecord")
+    classes = [ci] + [c for c in p.all_classes() if c is not ci and not c.synthetic and p.is_subclass(c, ci)]
+    seen, work = set(), []
+    for c in classes:
+        for name in entries:
+            raw = c.attrs.get(name)
+            if isinstance(raw, FuncInfo):
+                work.append(raw)
+    checked = 0
+    while work:
+        fi = work.pop()
+        if fi.qualname in seen:
+            continue
+        seen.add(fi.qualname)
+        fn = fi.node
+        params = [a.arg for a in fn.args.posonlyargs + fn.args.args]
+        if not params or fi.kind in ("staticmethod", "classmethod"):
+            continue
+        me = params[0]
+        setter = any(isinstance(d, ast.Attribute) and d.attr in ("setter", "deleter") for d in fn.decorator_list)
+        for n in ast.walk(fn):
+            # follow self.method(...) and self.prop
+            if isinstance(n, ast.Attribute) and isinstance(n.value, ast.Name) and n.value.id == me:
+                for c in classes:
+                    raw = c.attrs.get(n.attr)
+                    if isinstance(raw, FuncInfo) and raw.name not in _STATE_EXEMPT:
+                        work.append(raw)
+        if setter or fi.name in _STATE_EXEMPT:
+            continue
+        checked += 1
+        bad = []
+
+        def is_me(e):
+            return isinstance(e, ast.Name) and e.id == me
+
+        def is_ns(e):
+            # self.__dict__ / vars(self)
+            return (isinstance(e, ast.Attribute) and e.attr == "__dict__" and is_me(e.value)) or \
+                   (isinstance(e, ast.Call) and isinstance(e.func, ast.Name) and e.func.id == "vars" and len(e.args) == 1 and is_me(e.args[0]))
+
+        ns_alias = {t.id for a in ast.walk(fn) if isinstance(a, ast.Assign) and is_ns(a.value) for t in a.targets if isinstance(t, ast.Name)}
+
+        def is_nsx(e):
+            return is_ns(e) or (isinstance(e, ast.Name) and e.id in ns_alias)
+
+        for n in ast.walk(fn):
+            targets = []
+            if isinstance(n, ast.Assign):
+                targets = n.targets
+            elif isinstance(n, (ast.AugAssign, ast.AnnAssign)) and getattr(n, "value", None) is not None:
+                targets = [n.target]
+            for t in targets:
+                for x in ([t] if not isinstance(t, (ast.Tuple, ast.List)) else t.elts):
+                    if isinstance(x, ast.Attribute) and is_me(x.value):
+                        bad.append((n.lineno, "%s.%s = ..." % (me, x.attr)))
+                    if isinstance(x, ast.Subscript) and is_nsx(x.value):
+                        bad.append((n.lineno, ast.unparse(x) + " = ..."))
+            if isinstance(n, ast.Call):
+                f = n.func
+                if isinstance(f, ast.Attribute) and f.attr in ("setdefault", "update", "__setitem__") and is_nsx(f.value):
+                    bad.append((n.lineno, ast.unparse(f) + "(...)"))
+                if isinstance(f, ast.Name) and f.id == "setattr" and n.args and is_me(n.args[0]):
+                    bad.append((n.lineno, ast.unparse(n)[:60]))
+                if isinstance(f, ast.Attribute) and f.attr == "__setattr__" and n.args and is_me(n.args[0]):
+                    bad.append((n.lineno, ast.unparse(n)[:60]))
+        r.ob(rule, fi.qualname, not bad,
+             "%s keeps state on the record it is asked about (%s): the record's sequence, features and annotations can change "
+             "after the call, and a later call is then answered from what was stored instead of from the record's current content"
+             % (fi.name, "; ".join("line %d: %s" % b for b in bad)), fi.where())
+    if not checked:
+        raise AnalysisError("anchor vanished: none of %s is defined in CircularRecord" % (sorted(entries),))
